@@ -8,6 +8,7 @@
 #include <cstdio>
 #include <cstdlib>
 #include <cstring>
+#include <deque>
 #include <fstream>
 #include <sstream>
 #include <unordered_set>
@@ -95,7 +96,13 @@ static const HarnessDef* g_def = nullptr;
 static Src* g_cur_src = nullptr;
 static Case* g_cur_case = nullptr;
 static std::string g_fail_dir = ".";
-static bool g_in_replay = false;  // re-executing a saved case: a crash is reported, not saved again
+static bool g_in_replay = false;
+// The last few cases this process ran before the current one (pick list + index + size). A failure that depends on state the
+// library carries from one call to the next (function-local statics, thread_local scratch) does not reproduce from its own
+// picks in a fresh process; the replay file therefore also carries its predecessors (see replay mode).
+struct PrevCase { uint64_t index; int size; std::vector<uint64_t> picks; };
+static std::deque<PrevCase> g_recent;
+static const size_t kRecentMax = 6, kRecentMaxPicks = 6000;  // re-executing a saved case: a crash is reported, not saved again
 static std::string g_out;
 static std::string g_engine = "prng";
 static uint64_t g_seed = 1;
@@ -150,6 +157,9 @@ static void account(const Case& c, const Src& s) {
 }
 
 // ---------------------------------------------------------------- replay files
+static bool g_last_index_valid = false;
+static uint64_t g_last_index = 0;
+static int g_last_size = 100;
 static void write_replay(const std::string& path, const std::string& msg,
                          const std::vector<uint64_t>& picks, const Fields& fields) {
   FILE* f = fopen(path.c_str(), "w");
@@ -163,6 +173,13 @@ static void write_replay(const std::string& path, const std::string& msg,
   fprintf(f, "picks=");
   for (size_t i = 0; i < picks.size(); i++) fprintf(f, i ? ",%llu" : "%llu", (unsigned long long)picks[i]);
   fprintf(f, "\n");
+  if (g_cur_case) fprintf(f, "case=%llu:%d\n", (unsigned long long)g_cur_case->index, g_cur_case->size);
+  else if (g_last_index_valid) fprintf(f, "case=%llu:%d\n", (unsigned long long)g_last_index, g_last_size);
+  for (auto& pc : g_recent) {  // oldest first
+    fprintf(f, "prev=%llu:%d:", (unsigned long long)pc.index, pc.size);
+    for (size_t i = 0; i < pc.picks.size(); i++) fprintf(f, i ? ",%llu" : "%llu", (unsigned long long)pc.picks[i]);
+    fprintf(f, "\n");
+  }
   for (auto& kv : fields) {
     fprintf(f, "field.%s=%s\n", kv.first.c_str(), hex(kv.second).c_str());
     fprintf(f, "# %s ~ %s\n", kv.first.c_str(), printable(kv.second, 400).c_str());
@@ -170,6 +187,14 @@ static void write_replay(const std::string& path, const std::string& msg,
   fclose(f);
 }
 
+static std::vector<PrevCase> g_replay_prev;
+static PrevCase g_replay_case{0, 100, {}};
+static void parse_picks(const std::string& v, std::vector<uint64_t>& out) {
+  std::stringstream ss(v);
+  std::string t;
+  while (std::getline(ss, t, ','))
+    if (!t.empty()) out.push_back(strtoull(t.c_str(), nullptr, 10));
+}
 static bool read_replay(const std::string& path, std::vector<uint64_t>& picks, Fields& fields,
                         bool& has_picks) {
   std::ifstream in(path);
@@ -187,6 +212,18 @@ static bool read_replay(const std::string& path, std::vector<uint64_t>& picks, F
       std::string t;
       while (std::getline(ss, t, ','))
         if (!t.empty()) picks.push_back(strtoull(t.c_str(), nullptr, 10));
+    } else if (k == "case") {
+      g_replay_case.index = strtoull(v.c_str(), nullptr, 10);
+      size_t c1 = v.find(':');
+      if (c1 != std::string::npos) g_replay_case.size = atoi(v.c_str() + c1 + 1);
+    } else if (k == "prev") {
+      PrevCase pc{strtoull(v.c_str(), nullptr, 10), 100, {}};
+      size_t c1 = v.find(':'), c2 = c1 == std::string::npos ? c1 : v.find(':', c1 + 1);
+      if (c2 != std::string::npos) {
+        pc.size = atoi(v.c_str() + c1 + 1);
+        parse_picks(v.substr(c2 + 1), pc.picks);
+        g_replay_prev.push_back(pc);
+      }
     } else if (k.rfind("field.", 0) == 0) {
       fields.emplace_back(k.substr(6), unhex(v));
     } else if (k.rfind("text.", 0) == 0) {  // convenience: raw text field (no newlines)
@@ -325,6 +362,15 @@ static Outcome run_with(Src& s, Case& c, std::string* msg) {
   }
   g_cur_src = nullptr;
   g_cur_case = nullptr;
+  if (c.counting || !g_last_index_valid) {  // shrink candidates keep the identity of the case being shrunk
+    g_last_index_valid = true;
+    g_last_index = c.index;
+    g_last_size = c.size;
+  }
+  if (c.counting && !g_in_replay && o != FAIL) {
+    g_recent.push_back(PrevCase{c.index, c.size, s.log.size() <= kRecentMaxPicks ? s.log : std::vector<uint64_t>{}});
+    if (g_recent.size() > kRecentMax) g_recent.pop_front();
+  }
   return o;
 }
 
@@ -333,6 +379,10 @@ static bool fails(const std::vector<uint64_t>& picks, std::vector<uint64_t>* can
   ReplaySrc rs(picks);
   Case c;
   c.counting = false;
+  if (g_last_index_valid) {
+    c.index = g_last_index;
+    c.size = g_last_size;
+  }
   std::string m;
   Outcome o = run_with(rs, c, &m);
   if (o != FAIL) return false;
@@ -455,6 +505,8 @@ int verif_main(int argc, char** argv, const HarnessDef& def) {
         g_cur_case = nullptr;
       } else if (has_picks) {
         ReplaySrc rs(picks);
+        c.index = g_replay_case.index;
+        c.size = g_replay_case.size;
         o = run_with(rs, c, &msg);
       } else {
         fprintf(stderr, "replay %s has neither usable fields nor picks\n", rp);
@@ -469,6 +521,36 @@ int verif_main(int argc, char** argv, const HarnessDef& def) {
       if (o == SKIP) {
         printf("REPLAY-SKIP %s\n", msg.c_str());
         return 3;
+      }
+    }
+    if (has_picks && !g_replay_prev.empty() && !arg_value("no-history")) {
+      // the case passes on its own: re-execute it after the cases that preceded it in the process that reported it
+      // (outcomes of the predecessors are ignored: they passed there)
+      for (int r = 0; r < reps; r++) {
+        for (auto& pc : g_replay_prev) {
+          if (pc.picks.empty()) continue;
+          ReplaySrc ps(pc.picks);
+          Case pcse;
+          pcse.counting = false;
+          pcse.index = pc.index;
+          pcse.size = pc.size;
+          std::string ignored;
+          run_with(ps, pcse, &ignored);
+        }
+        ReplaySrc rs(picks);
+        Case c;
+        c.counting = false;
+        c.replay = true;
+        c.index = g_replay_case.index;
+        c.size = g_replay_case.size;
+        std::string msg;
+        if (run_with(rs, c, &msg) == FAIL) {
+          printf("REPLAY-FAIL [only after the %zu cases that preceded it in the reporting process: the library carries state from one call to the next] %s\n",
+                 g_replay_prev.size(), msg.c_str());
+          fflush(stdout);
+          g_dying = 1;
+          _exit(1);
+        }
       }
     }
     if (__lsan_do_recoverable_leak_check && __lsan_do_recoverable_leak_check()) {
@@ -517,6 +599,8 @@ int verif_main(int argc, char** argv, const HarnessDef& def) {
             c2.replay = true;
             std::string m2;
             if (run_with(s2, c2, &m2) == FAIL) {
+              g_last_index = c2.index;
+              g_last_size = c2.size;
               record_failure(s2.log, c2.fields, m2, false);
               found = true;
             }
